@@ -21,8 +21,71 @@ META = {
 }
 
 
+FAULT_INPUTS = [
+    {"annotators": [["a", [[0, 3, "x"], [5, 8, "y"]]], ["b", [[1, 3, "x"], [5, 9, "x"]]]]},
+    {"annotators": [["a", [[0, 2, "x"], [2, 4, "y"]]], ["b", [[1, 3, "y"]]], ["c", [[0, 4, "x"], [5, 6, "x"]]]]},
+]
+
+
 def shards(tier, seed):
-    return A.make_shards(tier, "backend", extra={"full": False})
+    tasks = A.make_shards(tier, "backend", extra={"full": False})
+    for i in range(len(FAULT_INPUTS)):
+        for mode in ("exact", "soft", "fast"):
+            tasks.append({"faults": {"input": i, "mode": mode, "max_faults": 1 if tier == "quick" else 2}})
+    return tasks
+
+
+def gamma_under_faults(spec, mode, fail_at):
+    """compute_gamma (serial pool, fixed NumPy seed) with SolverError injected at the given CBC calls"""
+    import numpy as np
+    from ..serial import serial_pool
+    from ..spec import build_continuum
+    A.set_backend("cbc")
+    A.set_fault_plan(fail_at)
+    c = build_continuum(spec)
+    d = A.DISSIMS.get({"k": "comb", "a": 1.0, "b": 1.0, "de": 1.0})
+    np.random.seed(21)
+    kw = {"fast": True} if mode == "fast" else ({"soft": True} if mode == "soft" else {})
+    try:
+        with serial_pool():
+            r = c.compute_gamma(d, n_samples=3, **kw)
+        out = {"observed": float(r.observed_disorder), "chance": [float(al.disorder) for al in r.chance_alignments],
+               "gamma": float(r.gamma), "calls": A.cbc_calls_seen()}
+    except Exception as e:  # noqa
+        out = {"exc": f"{type(e).__name__}: {e}", "calls": A.cbc_calls_seen()}
+    finally:
+        A.set_fault_plan(())
+    return out
+
+
+def run_faults(f, res):
+    """Fault enumeration: every placement of <= max_faults CBC failures among the solver calls of one gamma
+    computation; the fallback must give the same disorders (hence the same gamma) as the fault-free run."""
+    import itertools
+    spec = FAULT_INPUTS[f["input"]]
+    base = gamma_under_faults(spec, f["mode"], ())
+    n_calls = base["calls"]
+    plans = [()]
+    for k in range(1, f["max_faults"] + 1):
+        plans += list(itertools.combinations(range(1, n_calls + 1), k))
+    for plan in plans:
+        got = gamma_under_faults(spec, f["mode"], plan)
+        res["evaluations"] += 1
+        res["transitions"] += n_calls
+        res["traces"] += 1
+        key = h(["faults", f, plan])
+        res["state_set"].append(key)
+        ok = "exc" not in got and "exc" not in base and close(got["observed"], base["observed"]) and \
+            len(got["chance"]) == len(base["chance"]) and all(close(x, y) for x, y in zip(got["chance"], base["chance"])) \
+            and close(got["gamma"], base["gamma"], 1e-3)
+        if not ok:
+            res["violations"].append({"msg": f"CBC failing at solver call(s) {list(plan)} of a {f['mode']} gamma computation: "
+                                             f"{got} but the fault-free run gives {base}",
+                                      "case": {"faults": f, "plan": list(plan)}})
+        elif plan:
+            res["nontrivial"].append(key)
+    res["extra"]["fault_plans"] = res["extra"].get("fault_plans", 0) + len(plans)
+    return res
 
 
 def recipes(labels):
@@ -47,7 +110,9 @@ def judge(spec, recipe, kind, backend, obs, opt):
 
 def run(task):
     res = {"evaluations": 0, "transitions": 0, "traces": 0, "state_set": [], "nontrivial": [], "outcomes": [],
-           "samples": [], "violations": [], "extra": {"solver_CBC": 0, "solver_GLPK_MI": 0}}
+           "samples": [], "violations": [], "extra": {"solver_CBC": 0, "solver_GLPK_MI": 0, "fault_plans": 0}}
+    if "faults" in task:
+        return run_faults(task["faults"], res)
     for spec in A.iter_task_specs(task):
         labels = A.spec_label_set(spec)
         n = len(spec["annotators"])
@@ -93,6 +158,14 @@ def finalize(cov):
 
 
 def replay(case):
+    if "faults" in case:
+        f = case["faults"]
+        spec = FAULT_INPUTS[f["input"]]
+        base = gamma_under_faults(spec, f["mode"], ())
+        got = gamma_under_faults(spec, f["mode"], tuple(case["plan"]))
+        ok = "exc" not in got and close(got["observed"], base["observed"]) and len(got["chance"]) == len(base["chance"]) \
+            and all(close(x, y) for x, y in zip(got["chance"], base["chance"]))
+        return [] if ok else [{"msg": f"faults at {case['plan']}: {got} vs fault-free {base}", "case": case}]
     kind = case["kind"]
     opt = optimum(case["spec"], case["recipe"], cover=(kind == "soft"))
     obs = A.eval_case(case["spec"], case["recipe"], case["backend"], kind)
